@@ -45,4 +45,69 @@ theorem refParts_other (x : Char) (t : List Char) (h : x ≠ '.') :
   · rename_i h'; simp at h'; exact absurd h'.1 h
   · rfl
 
+/-! ### `get_host`: the shared tail (default-port stripping, trust check) and the host text -/
+
+theorem ite_not_swap {α : Type} (b : Bool) (x y : α) :
+    (if (!b) = true then x else y) = if b = true then y else x := by
+  cases b <;> rfl
+
+theorem tail_none (scheme host : List Char) :
+      (if ((scheme == ['h', 't', 't', 'p'] || scheme == ['w', 's']) && (Pre.endswith host [':', '8', '0'])) = true then
+        (Except.ok (slice host none (some (-3))) : Except String (List Char))
+      else
+        Except.ok (if ((scheme == ['h', 't', 't', 'p', 's'] || scheme == ['w', 's', 's']) && (Pre.endswith host [':', '4', '4', '3'])) = true then slice host none (some (-4)) else host))
+      = .ok (Dbg.stripDefaultPort scheme host) := by
+  have e80 : ":80".toList = [':', '8', '0'] := by decide
+  have e443 : ":443".toList = [':', '4', '4', '3'] := by decide
+  have eh : "http".toList = ['h', 't', 't', 'p'] := by decide
+  have ew : "ws".toList = ['w', 's'] := by decide
+  have ehs : "https".toList = ['h', 't', 't', 'p', 's'] := by decide
+  have ews : "wss".toList = ['w', 's', 's'] := by decide
+  have s3 : ∀ h : List Char, slice h none (some (-3)) = h.take (h.length - 3) := fun h => slice_none_neg h 3 (by decide)
+  have s4 : ∀ h : List Char, slice h none (some (-4)) = h.take (h.length - 4) := fun h => slice_none_neg h 4 (by decide)
+  unfold Dbg.stripDefaultPort Dbg.endsWith Pre.endswith
+  simp only [e80, e443, eh, ew, ehs, ews, s3, s4]
+  split <;> simp_all
+
+theorem tail_some (idna : Dbg.Idna) (scheme host : List Char) (tl : List (List Char)) :
+      (if ((scheme == ['h', 't', 't', 'p'] || scheme == ['w', 's']) && (Pre.endswith host [':', '8', '0'])) = true then
+        (if (!(Dbg.hostIsTrusted idna (some (slice host none (some (-3)))) tl)) = true then Except.error "SecurityError" else Except.ok (slice host none (some (-3))))
+      else
+        (if (!(Dbg.hostIsTrusted idna (some (if ((scheme == ['h', 't', 't', 'p', 's'] || scheme == ['w', 's', 's']) && (Pre.endswith host [':', '4', '4', '3'])) = true then slice host none (some (-4)) else host)) tl)) = true then Except.error "SecurityError" else Except.ok (if ((scheme == ['h', 't', 't', 'p', 's'] || scheme == ['w', 's', 's']) && (Pre.endswith host [':', '4', '4', '3'])) = true then slice host none (some (-4)) else host)))
+      = (if Dbg.hostIsTrusted idna (some (Dbg.stripDefaultPort scheme host)) tl = true then .ok (Dbg.stripDefaultPort scheme host) else .error "SecurityError") := by
+  have e80 : ":80".toList = [':', '8', '0'] := by decide
+  have e443 : ":443".toList = [':', '4', '4', '3'] := by decide
+  have eh : "http".toList = ['h', 't', 't', 'p'] := by decide
+  have ew : "ws".toList = ['w', 's'] := by decide
+  have ehs : "https".toList = ['h', 't', 't', 'p', 's'] := by decide
+  have ews : "wss".toList = ['w', 's', 's'] := by decide
+  have s3 : ∀ h : List Char, slice h none (some (-3)) = h.take (h.length - 3) := fun h => slice_none_neg h 3 (by decide)
+  have s4 : ∀ h : List Char, slice h none (some (-4)) = h.take (h.length - 4) := fun h => slice_none_neg h 4 (by decide)
+  unfold Dbg.stripDefaultPort Dbg.endsWith Pre.endswith
+  simp only [e80, e443, eh, ew, ehs, ews, s3, s4, ite_not_swap]
+  split <;> simp_all
+
+/-- the host text `get_host` starts from -/
+def hostText (hostHeader : Option (List Char)) (server : Option (List Char × Option Nat)) : List Char :=
+  match hostHeader with
+  | some h => h
+  | none =>
+    match server with
+    | none => []
+    | some (name, port) =>
+      let name := if name.contains ':' && name.head? != some '[' then '[' :: name ++ [']'] else name
+      match port with
+      | some p => name ++ ':' :: (toString p).toList
+      | none => name
+
+theorem getHost_none (idna : Dbg.Idna) (scheme : List Char) (hostHeader : Option (List Char))
+    (server : Option (List Char × Option Nat)) :
+    Dbg.getHost idna scheme hostHeader server none = .ok (Dbg.stripDefaultPort scheme (hostText hostHeader server)) := rfl
+
+theorem getHost_some (idna : Dbg.Idna) (scheme : List Char) (hostHeader : Option (List Char))
+    (server : Option (List Char × Option Nat)) (tl : List (List Char)) :
+    Dbg.getHost idna scheme hostHeader server (some tl) =
+      if Dbg.hostIsTrusted idna (some (Dbg.stripDefaultPort scheme (hostText hostHeader server))) tl = true
+      then .ok (Dbg.stripDefaultPort scheme (hostText hostHeader server)) else .error "SecurityError" := rfl
+
 end Wz.PyFnsHost
